@@ -293,64 +293,9 @@ func runC01(r *R) {
 	}
 
 	// ---- R7
-	r.Rule("C01-R7", "compareReaderWithBuf: nil only at io.EOF with len(cmp)==0; a mismatch never returns nil", 2)
-	if fn := r.NeedFn("C01-R7", ks+".compareReaderWithBuf"); fn != nil {
-		for _, ret := range Returns(fn) {
-			succ, maybe := IsSuccessReturn(ret)
-			if !maybe {
-				continue
-			}
-			if !succ {
-				// returns of `err`/ctx.Err()/collisionOrCorrupt(...) are not constant nil: fine
-				continue
-			}
-			gEOF, _ := Guard(fn, nil, ret, EqC("err==io.EOF", AnyV, GlobalVP("io.EOF")))
-			gLen, _ := Guard(fn, nil, ret, EqC("len(cmp)==0", lenVP, ConstIntVP(0)))
-			gMis, _ := Guard(fn, nil, ret, EqC("bytes.Compare(...)==0", CallVP("bytes.Compare"), ConstIntVP(0)))
-			if !gMis {
-				gMis, _ = Guard(fn, nil, ret, TrueC("bytes.Equal(...)", CallVP("bytes.Equal")))
-			}
-			gLong, _ := Guard(fn, nil, ret, LeC("n<=len(cmp)", AnyV, lenVP))
-			r.Check(gEOF && gLen && gMis && gLong, "C01-R7", fn, "return nil", ret.Pos(),
-				"guarded by err==io.EOF, len(cmp)==0, bytes.Compare==0, n<=len(cmp)", "nil return lacks one of: EOF, nothing left, bytes equal, not longer")
-		}
-		// mismatch successor returns collisionOrCorrupt
-		cc := CallsIn(fn, ks+".collisionOrCorrupt")
-		r.Check(len(cc) >= 2, "C01-R7", fn, "calls collisionOrCorrupt", fn.Pos(), "mismatch and short-read arms call collisionOrCorrupt", "mismatch arms no longer reach collisionOrCorrupt")
-		for _, c := range cc {
-			// its result must be returned
-			returned := false
-			for _, ref := range *c.Value().Referrers() {
-				if _, ok := ref.(*ssa.Return); ok {
-					returned = true
-				}
-			}
-			r.Check(returned, "C01-R7", fn, "result of collisionOrCorrupt", c.Pos(), "returned to caller", "collisionOrCorrupt's verdict is dropped")
-		}
-	}
-	if fn := r.NeedFn("C01-R7", ks+".collisionOrCorrupt"); fn != nil {
-		for _, ret := range Returns(fn) {
-			succ, _ := IsSuccessReturn(ret)
-			r.Check(!succ, "C01-R7", fn, "return", ret.Pos(), "never the nil constant", "collisionOrCorrupt returns constant nil")
-			// a returned variable error must be known non-nil: the function is only called after a mismatch was seen,
-			// so a nil result would tell the caller "identical content"
-			for _, x := range []ssa.Value{Strip(ret.Results[0])} {
-				if _, isC := x.(*ssa.Const); isC {
-					continue
-				}
-				if u, isU := x.(*ssa.UnOp); isU && u.Op == token.ARROW {
-					continue // the verdict computed by the hashing goroutine (CollisionError / DiskHashError)
-				}
-				if _, isG := LoadedGlobal(x); isG {
-					continue
-				}
-				cut := CorrelatedCut(fn, ret)
-				es, _ := IfEdges(fn, NeqC("err != nil", Is(x), NilV).Match)
-				cut.Add(es)
-				r.Check(!ReachFromEntry(fn, ret, cut), "C01-R7", fn, "return err", ret.Pos(), "the read error returned is non-nil on every path", "collisionOrCorrupt can return a nil read error: a corrupt or truncated stored copy is then reported as identical and the PUT is acknowledged without an intact copy")
-			}
-		}
-	}
+	compareRule(r, "C01-R7")
+	// R9: an abandoned PUT never publishes a truncated file (shared with C02-R5)
+	pipeCloseRule(r, "C01-R9")
 }
 
 func lenVP(v ssa.Value) bool {
@@ -438,3 +383,66 @@ func globalInitOwner(w *World, fn *ssa.Function) string {
 }
 
 var _ = token.NoPos
+
+// compareRule (C01-R7, C02-R7): comparing a stored copy with the body of a PUT says "identical" only for an
+// identical copy.
+func compareRule(r *R, rule string) {
+	r.Rule(rule, "compareReaderWithBuf: nil only at io.EOF with len(cmp)==0; a mismatch never returns nil; collisionOrCorrupt never returns a nil error", 2)
+	if fn := r.NeedFn(rule, ks+".compareReaderWithBuf"); fn != nil {
+		for _, ret := range Returns(fn) {
+			succ, maybe := IsSuccessReturn(ret)
+			if !maybe {
+				continue
+			}
+			if !succ {
+				// returns of `err`/ctx.Err()/collisionOrCorrupt(...) are not constant nil: fine
+				continue
+			}
+			gEOF, _ := Guard(fn, nil, ret, EqC("err==io.EOF", AnyV, GlobalVP("io.EOF")))
+			gLen, _ := Guard(fn, nil, ret, EqC("len(cmp)==0", lenVP, ConstIntVP(0)))
+			gMis, _ := Guard(fn, nil, ret, EqC("bytes.Compare(...)==0", CallVP("bytes.Compare"), ConstIntVP(0)))
+			if !gMis {
+				gMis, _ = Guard(fn, nil, ret, TrueC("bytes.Equal(...)", CallVP("bytes.Equal")))
+			}
+			gLong, _ := Guard(fn, nil, ret, LeC("n<=len(cmp)", AnyV, lenVP))
+			r.Check(gEOF && gLen && gMis && gLong, rule, fn, "return nil", ret.Pos(),
+				"guarded by err==io.EOF, len(cmp)==0, bytes.Compare==0, n<=len(cmp)", "nil return lacks one of: EOF, nothing left, bytes equal, not longer")
+		}
+		// mismatch successor returns collisionOrCorrupt
+		cc := CallsIn(fn, ks+".collisionOrCorrupt")
+		r.Check(len(cc) >= 2, rule, fn, "calls collisionOrCorrupt", fn.Pos(), "mismatch and short-read arms call collisionOrCorrupt", "mismatch arms no longer reach collisionOrCorrupt")
+		for _, c := range cc {
+			// its result must be returned
+			returned := false
+			for _, ref := range *c.Value().Referrers() {
+				if _, ok := ref.(*ssa.Return); ok {
+					returned = true
+				}
+			}
+			r.Check(returned, rule, fn, "result of collisionOrCorrupt", c.Pos(), "returned to caller", "collisionOrCorrupt's verdict is dropped")
+		}
+	}
+	if fn := r.NeedFn(rule, ks+".collisionOrCorrupt"); fn != nil {
+		for _, ret := range Returns(fn) {
+			succ, _ := IsSuccessReturn(ret)
+			r.Check(!succ, rule, fn, "return", ret.Pos(), "never the nil constant", "collisionOrCorrupt returns constant nil")
+			// a returned variable error must be known non-nil: the function is only called after a mismatch was seen,
+			// so a nil result would tell the caller "identical content"
+			for _, x := range []ssa.Value{Strip(ret.Results[0])} {
+				if _, isC := x.(*ssa.Const); isC {
+					continue
+				}
+				if u, isU := x.(*ssa.UnOp); isU && u.Op == token.ARROW {
+					continue // the verdict computed by the hashing goroutine (CollisionError / DiskHashError)
+				}
+				if _, isG := LoadedGlobal(x); isG {
+					continue
+				}
+				cut := CorrelatedCut(fn, ret)
+				es, _ := IfEdges(fn, NeqC("err != nil", Is(x), NilV).Match)
+				cut.Add(es)
+				r.Check(!ReachFromEntry(fn, ret, cut), rule, fn, "return err", ret.Pos(), "the read error returned is non-nil on every path", "collisionOrCorrupt can return a nil read error: a corrupt or truncated stored copy is then reported as identical and the PUT is acknowledged without an intact copy")
+			}
+		}
+	}
+}
